@@ -751,8 +751,8 @@ class IntRS(np.random.RandomState):
 
 
 def ridge_case(rng, kind):
-    """one pass of fit on integer X, y with integer initial factors, reg_W = 1 and an instrumented T.solve that records its arguments
-    (A, B) and answers with small integers: every (A, B) must be the model's phi'phi + I and phi'y of the current blocks, bit for bit"""
+    """one pass of fit on integer X, y with integer initial factors, reg_W in {1, 2, 3, 5} and an instrumented T.solve that records its arguments
+    (A, B) and answers with small integers: every (A, B) must be the model's phi'phi + reg_W I and phi'y of the current blocks, bit for bit"""
     import tensorly.backend as TB
     from tensorly.regression.cp_regression import CPRegressor
     from tensorly.regression.tucker_regression import TuckerRegressor
@@ -766,6 +766,7 @@ def ridge_case(rng, kind):
     X = np.array([rng.randint(-3, 3) for _ in range(n * int(np.prod(sx)))], dtype=np.float64).reshape((n,) + sx)
     y = np.array([rng.randint(-3, 3) for _ in range(n * int(np.prod(so, dtype=int)))], dtype=np.float64).reshape((n,) + so)
     seed = rng.randint(0, 10 ** 6)
+    reg = rng.choice([1, 1, 2, 3, 5])
     ans = np.random.RandomState(seed + 1)
     rec = []
     orig = TB.solve
@@ -775,10 +776,10 @@ def ridge_case(rng, kind):
         return ans.randint(-2, 3, size=(np.shape(A)[1],) + tuple(np.shape(B)[1:])).astype(np.float64)
     if cp:
         R = rng.randint(1, 2)
-        mk = lambda: CPRegressor(weight_rank=R, reg_W=1, n_iter_max=1, random_state=IntRS(seed), verbose=0)
+        mk = lambda: CPRegressor(weight_rank=R, reg_W=reg, n_iter_max=1, random_state=IntRS(seed), verbose=0)
     else:
         ranks = [rng.randint(1, 2) for _ in sx]
-        mk = lambda: TuckerRegressor(weight_ranks=list(ranks), reg_W=1, n_iter_max=1, random_state=IntRS(seed), verbose=0)
+        mk = lambda: TuckerRegressor(weight_ranks=list(ranks), reg_W=reg, n_iter_max=1, random_state=IntRS(seed), verbose=0)
     TB.solve = solve
     try:
         st, r = call(lambda: mk().fit(X.copy(), y.copy()))
@@ -791,11 +792,11 @@ def ridge_case(rng, kind):
     if cp:
         W0 = [g.randn(d, R) for d in sx] + [g.randn(d, R) for d in so]
         newW = [np.asarray(f) for f in r.cp_weight_[1]]
-        return "ok", f"KRidgeCPZ {C.nat(R)} {C.nat_list(so)} {zt(X)} {zt(y)} {lst(zt(f) for f in W0)} {lst(zt(f) for f in newW)} {eAB}"
+        return "ok", f"KRidgeCPZ {C.z(reg)} {C.nat(R)} {C.nat_list(so)} {zt(X)} {zt(y)} {lst(zt(f) for f in W0)} {lst(zt(f) for f in newW)} {eAB}"
     G0 = g.randn(*ranks)
     W0 = [g.randn(d, q) for d, q in zip(sx, ranks)]
     newW = [np.asarray(f) for f in r.tucker_weight_[1]]
-    return "ok", f"KRidgeTKZ {zt(X)} {zt(y)} {zt(G0)} {lst(zt(f) for f in W0)} {lst(zt(f) for f in newW)} {eAB}"
+    return "ok", f"KRidgeTKZ {C.z(reg)} {zt(X)} {zt(y)} {zt(G0)} {lst(zt(f) for f in W0)} {lst(zt(f) for f in newW)} {eAB}"
 
 
 # ----------------------------------------------------------------------------- one object under a sequence of calls
@@ -1112,6 +1113,8 @@ def plsr_seq_case(prog):
         elif op[0] in ("score", "score_train"):
             Xq, Yq = (d["X"], d["Y"]) if op[0] == "score_train" else (d["Xn"], d["Yn"])
             Yq = np.asarray(Yq).reshape(Xq.shape[0], -1)           # matrix targets (a vector Y is broadcast by score: reported)
+            if hasattr(r, "Y_mean_") and Yq.shape[1] != np.shape(r.Y_mean_)[0]:
+                continue          # another number of columns than the fitted targets: NumPy broadcasts Y - Y_mean_ (outside the model of score)
             out = call(r.score, Xq.copy(), Yq.copy())
             if not _raised(out) and not np.isfinite(out[1]):
                 continue
@@ -1740,7 +1743,7 @@ def generate_source_groups(repo):
     cpl = gen_regressor(os.path.join(R, "cp_regression.py"), "CPRegressor", "cp", "cp_to_tensor", "cp_to_vec", "cp_weight_")
     tkl = gen_regressor(os.path.join(R, "tucker_regression.py"), "TuckerRegressor", "tk", "tucker_to_tensor", "tucker_to_vec", "tucker_weight_")
     from harness.props import C19_blocks
-    blocks = [(name, text, None) for name, text in C19_blocks.generate(repo)]
+    blocks = [(name, text, None) for name, text in C19_blocks.generate(repo) + C19_blocks.generate_plsr(repo)]
     return blocks + [("CP_PLSR shape tests and pre-loop attributes", SRC_HEADER + plsr + PLSR_LEMMAS, SRC_HEADER + plsr + PLSR_BOX),
             ("CPRegressor.fit loop", SRC_HEADER + cpl, SRC_HEADER + cpl[:cpl.index("Lemma loop_cp_ok")] + "End Src_cp.\n" + LOOP_BOX.replace("TAG", "cp")),
             ("TuckerRegressor.fit loop", SRC_HEADER + tkl, SRC_HEADER + tkl[:tkl.index("Lemma loop_tk_ok")] + "End Src_tk.\n" + LOOP_BOX.replace("TAG", "tk")),
@@ -1778,7 +1781,7 @@ def source_tie(chk):
             chk.cov["source_derived_lemmas"] = "untranslatable source"
             return
         chk.checker_cmds.append("coqc on generated build/gen/C19_*/Src*.v (tensorly/regression source -> Gallina): fit_rejects_src_ok, y_matrix_src_ok, predict_x_rejects_src_ok, "
-                                "transform_x_rejects_src_ok, transform_y_rejects_src_ok, pre_loop_attrs_src_ok, loop_cp_ok, fit_cp_ok, loop_tk_ok, fit_tk_ok, predict_cp_src_ok, cp_blocks_src_box, tk_blocks_src_box")
+                                "transform_x_rejects_src_ok, transform_y_rejects_src_ok, pre_loop_attrs_src_ok, loop_cp_ok, fit_cp_ok, loop_tk_ok, fit_tk_ok, predict_cp_src_ok, cp_blocks_src_box, tk_blocks_src_box, plsr_bodies_src_box")
         res = {}
         from concurrent.futures import ThreadPoolExecutor
         with ThreadPoolExecutor(max_workers=4) as ex:
